@@ -272,6 +272,17 @@ func (g *ExprGen) literalFor(n *uni.Node, op bx.Op) string {
 	}
 	pos := op &^ 1
 	if pos == bx.OpMatches {
+		if n.T.K.IsList() && n.T.Elem != nil && n.T.Elem.K == uni.KUint8 && c < 70 {
+			// a pattern taken from the bytes themselves
+			var bs []byte
+			for _, e := range n.Elems {
+				bs = append(bs, byte(e.U))
+			}
+			if utf8.Valid(bs) {
+				q := regexp.QuoteMeta(string(bs))
+				return []string{"^" + q + "$", q, "^" + q, "^.{" + strconv.Itoa(utf8.RuneCount(bs)) + "}$"}[g.intn(4, "bytesre")]
+			}
+		}
 		if n.T.K.IsStringLike() && c < 50 && utf8.ValidString(n.S) {
 			s := n.S
 			if len(s) > 0 && c < 25 {
@@ -466,6 +477,9 @@ func (g *ExprGen) opFor(n *uni.Node) bx.Op {
 		cands = allOps
 	case k.IsScalar():
 		cands = []bx.Op{bx.OpEq, bx.OpNe}
+	case k.IsList() && n.T.Elem != nil && n.T.Elem.K == uni.KUint8:
+		// byte slices are text to `matches`
+		cands = []bx.Op{bx.OpMatches, bx.OpNotMatches, bx.OpMatches, bx.OpIn, bx.OpNotIn, bx.OpEmpty, bx.OpNotEmpty, bx.OpEq}
 	case k.IsList(), k == uni.KMap:
 		cands = []bx.Op{bx.OpIn, bx.OpNotIn, bx.OpIn, bx.OpNotIn, bx.OpIn, bx.OpNotIn, bx.OpEmpty, bx.OpNotEmpty, bx.OpEmpty, bx.OpNotEmpty, bx.OpEq}
 	default:
